@@ -218,15 +218,48 @@ def _feasible_neg(v):
     return eng.feasible(pc, zt(v) < bvv(0))
 
 
+def _narrow(t, k, signed_):
+    """low k bits of a W-bit term (value known to fit)"""
+    return z3.Extract(k - 1, 0, t)
+
+
+def narrow_mul(at, bt, abnd, bbnd):
+    """a*b computed at the narrowest sufficient width and extended back to W (bit-blasting cost ~ width^2)"""
+    (alo, ahi), (blo, bhi) = abnd, bbnd
+    sg = alo < 0 or blo < 0
+    ka = max(abs(alo), abs(ahi)).bit_length() + (1 if sg else 0)
+    kb = max(abs(blo), abs(bhi)).bit_length() + (1 if sg else 0)
+    n = ka + kb
+    if n >= G.W or ka == 0 or kb == 0:
+        return at * bt
+    ext = z3.SignExt if sg else z3.ZeroExt
+    pa = ext(n - ka, _narrow(at, ka, sg))
+    pb = ext(n - kb, _narrow(bt, kb, sg))
+    return ext(G.W - n, pa * pb)
+
+
+def narrow_udivrem(at, bt, ahi, bhi, want_div):
+    n = max(ahi.bit_length(), bhi.bit_length(), 1)
+    if n >= G.W:
+        return z3.UDiv(at, bt) if want_div else z3.URem(at, bt)
+    a, b = z3.Extract(n - 1, 0, at), z3.Extract(n - 1, 0, bt)
+    r = z3.UDiv(a, b) if want_div else z3.URem(a, b)
+    return z3.ZeroExt(G.W - n, r)
+
+
 def sym_mul(a, b):
     (alo, ahi), (blo, bhi) = bounds(a), bounds(b)
     lo, hi = _mulb((alo, ahi), (blo, bhi))
     if not (is_sym(a) and is_sym(b)):
-        return mk_int(zt(a) * zt(b), lo, hi)
+        if not fits(lo, hi):
+            raise WidthError('product interval exceeds W=%d' % G.W)
+        return mk_int(narrow_mul(zt(a), zt(b), (alo, ahi), (blo, bhi)), lo, hi)
     abits = max(abs(alo), abs(ahi)).bit_length()
     bbits = max(abs(blo), abs(bhi)).bit_length()
     if abits + bbits <= G.MUL_PRECISE_BITS:
-        return mk_int(zt(a) * zt(b), lo, hi)
+        if not fits(lo, hi):
+            raise WidthError('product interval exceeds W=%d' % G.W)
+        return mk_int(narrow_mul(zt(a), zt(b), (alo, ahi), (blo, bhi)), lo, hi)
     if not fits(lo, hi):
         raise WidthError('product interval exceeds W=%d' % G.W)
     at, bt = zt(a), zt(b)
@@ -334,8 +367,8 @@ def binop(op, a, b):
                     raise Unsupported('symbolic divisor not provably positive')
             if alo >= 0:
                 if op is operator.floordiv:
-                    return mk_int(z3.UDiv(zt(a), zt(b)), alo // bhi, ahi // blo)
-                return mk_int(z3.URem(zt(a), zt(b)), 0, min(ahi, bhi - 1))
+                    return mk_int(narrow_udivrem(zt(a), zt(b), ahi, bhi, True), alo // bhi, ahi // blo)
+                return mk_int(narrow_udivrem(zt(a), zt(b), ahi, bhi, False), 0, min(ahi, bhi - 1))
             # floor semantics for negative dividend, positive divisor
             at, bt = zt(a), zt(b)
             r = z3.SRem(at, bt)
@@ -364,8 +397,8 @@ def binop(op, a, b):
             raise WidthError('divisor exceeds W')
         if alo >= 0:
             if op is operator.floordiv:
-                return mk_int(z3.UDiv(zt(a), bvv(b)), alo // b, ahi // b)
-            return mk_int(z3.URem(zt(a), bvv(b)), 0, min(ahi, b - 1))
+                return mk_int(narrow_udivrem(zt(a), bvv(b), ahi, b, True), alo // b, ahi // b)
+            return mk_int(narrow_udivrem(zt(a), bvv(b), ahi, b, False), 0, min(ahi, b - 1))
         at = zt(a)
         r = z3.SRem(at, bvv(b))
         r = z3.If(r < 0, r + bvv(b), r)
